@@ -2,17 +2,22 @@ CONFIG = {
     "level": "proof",
     "level_text": "PARTIAL. Lean theorems (kernel-checked, no sorry/axioms) about a state-machine model of the ABCI multiplexer's proposal cache, parameterised by an arbitrary deterministic block executor: for every sequence of ABCI calls CometBFT may issue for a height (any PrepareProposal/ProcessProposal of arbitrary candidate blocks in arbitrary rounds, restarts anywhere outside a completed delivery, aborted deliveries, CheckTx/EstimateGas/queries anywhere) the committed state, the BeginBlock/DeliverTx/EndBlock results and the application hash returned for the decided block are exactly the executor's, whether served from the cache or recomputed, and the node panics on exactly the blocks the executor rejects (mux_path_independent); by induction over heights all replicas agree at every height for all assignments of execution path (replicas_agree); the block-metadata transaction binds state root and events root (meta_binds_root); isEqual is sound and compares every input of block execution, including the last-commit info (isEqual_sound, isEqual_compares_commit_info; the rule before /repo 47a524f, which did not, is kept as the labelled historical witness prefix_rule_commit_info_gap). Order independence: lemmas over List.Perm for every fold pattern found at a map-range site (sum, grouped sum, per-key write, set insert, delete by predicate, emission as a set, collect-then-sort, all/any checks, first-wins dedup sum, argmax under majority). Ties: (i) regenerated map-range site ledger (go/types) equal, by `decide`, to a hand-written expectation table mapping each of the 74 sites to its lemma or off-chain reason; (i') regenerated source facts of the cache (isEqual's parameters and conditions, BlockInfo fields, cache guards, system-transaction guards; 24 lists) pinned by `rfl` next to the model definitions they justify; (i'') regenerated ledger of the 31 uses of replica-local inputs (own identity, local min gas price, halt configuration, local upgrade backend) in the abci package, its API and the applications, each classified (accessor / construction / CheckTx-only under a positive IsCheckOnly() guard / proposer-only / node halt / local upgrade store), equal by `decide`: a new use on a delivery path breaks the build; (i'''') regenerated ledger of the process-local state of the applications (tools/gen appstate.go): every field of every type in apps/** with a block or transaction hook (28) and every statement in a method of such a type that writes through its receiver (7), each classified (wiring / constant / function of the consensus state / sanity checker only), equal by `decide` (app_state_fields_classified, app_state_writes_classified): an application that starts remembering something in memory across calls — which a replica restarted from disk would not have — breaks the build; (i''') every call of the node-local upgrade manager with the exits of the statement consuming its result: SubmitDescriptor/CancelUpgrade results are only logged (pinned verbatim), all other calls only halt or panic the node; (ii) correspondence: real multiplexers with the 8 real applications driven through generated call sequences, every response checked against the Lean model instantiated with the executor outputs observed on a cache-free oracle; (iii) twin-replica oracle on the implementation (AppHash, per-tx results, validator updates as a set, across paths, restarts from disk, both NodeDB backends, concurrent CheckTx, pruner, repeated runs).",
     "technique": "Lean 4 proof over a reference model of the proposal cache + List.Perm order-independence lemmas; regenerated map-range ledger (go/types) discharged by decide; witness-checking correspondence and twin-replica differential runs on the real multiplexer",
-    "models": ["mux"],
-    "lean_sources": ["OasisModel/Mux", "OasisModel/Proto.lean", "OasisProofs/Helpers/Mux.lean"],
+    "models": ["mux", "upgrade"],
+    "lean_sources": ["OasisModel/Upgrade", "OasisProofs/Helpers/Upgrade.lean", "OasisModel/Mux", "OasisModel/Proto.lean", "OasisProofs/Helpers/Mux.lean"],
     "regen": [
         {"kind": "maprange", "out": "MapRangeSites.lean"},
         {"kind": "muxfacts", "out": "MuxFacts.lean"},
         {"kind": "stmtfacts", "out": "StmtFactsTimesource.lean", "args": ["timesource"]},
         {"kind": "stmtfacts", "out": "StmtFactsUpgrademgr.lean", "args": ["upgrademgr"]},
     ],
-    "extra_theorem_files": [{"file": "OasisProofs/Props/C01TimeSource.lean", "namespace": "OasisProofs.C01TimeSource"}, {"file": "OasisProofs/Props/C01UpgradeFacts.lean", "namespace": "OasisProofs.C01UpgradeFacts"}],
+    "extra_theorem_files": [{"file": "OasisProofs/Props/C01TimeSource.lean", "namespace": "OasisProofs.C01TimeSource"}, {"file": "OasisProofs/Props/C01UpgradeFacts.lean", "namespace": "OasisProofs.C01UpgradeFacts"}, {"file": "OasisProofs/Props/C01Upgrade.lean", "namespace": "OasisProofs.C01Upgrade"}],
     "generated_obligations": 74 + 24 + 31 + 8 + 28 + 7,
     "drivers": [
+        # the node-local upgrade manager against its Lean model (OasisModel/Upgrade/Manager.lean), plus the
+        # re-execution clause evaluated directly
+        {"name": "upgdrv",
+         "quick": ["-cases", "400"],
+         "thorough": ["-cases", "20000"]},
         {"name": "muxdrv",
          "quick": ["-cases", "12", "-heights", "12", "-reps", "2"],
          "thorough": ["-cases", "150", "-heights", "20", "-reps", "2"],
@@ -28,6 +33,7 @@ CONFIG = {
     ],
     "trusted_base": [
         "Lean 4.33 kernel (axioms per theorem listed under coverage.axioms; at most propext, Classical.choice, Quot.sound)",
+        "the model OasisModel/Upgrade/Manager.lean (ConsensusUpgrade of the node-local upgrade manager, statement by statement) is tied to go/upgrade by the upgdrv correspondence (real manager over a real persistent store, recording migration handlers registered by the driver, real ABCI contexts; outcome, handlers run, pending list compared after every call) and by the regenerated statement pin Props/C01UpgradeFacts.lean; not modelled: restart of the process (checkStatus / StartupUpgrade, store versus memory), CancelUpgrade, an error returned by the migration handler itself",
         "the model OasisModel/Mux/Proposal.lean is the specification of the proposal-cache protocol; it is tied to go/consensus/cometbft/abci by the muxdrv correspondence (every ABCI response of every replica must be the one the model predicts from the oracle's executor observations)",
         "tools/gen/muxfacts.go (go/ast: prints conditions, assignments, call arguments and struct fields of the cache code as canonical source text)",
         "tools/gen/maprange.go (go/types via golang.org/x/tools/go/packages: lists map ranges and maps.Keys/Values calls) and the reading of each listed site recorded in the expectation table of OasisProofs/Props/C01.lean",
